@@ -12,17 +12,18 @@ EXPLANATION = ('For every operator sequence up to the bound over + - * / ^ || (w
                'z3 decides equality for ALL values (x^y with symbolic exponent is an uninterpreted function, so two different groupings are '
                'never identified). Every rendering of one skeleton (spaces, tabs/newlines between tokens, em-dash minus, redundant parentheses) '
                'must give the same term. Number formats x suffix multipliers and case-sensitive name resolution are checked with symbolic '
-               'suffix values / variable values.')
+               'suffix values / variable values. The accepted LANGUAGE is decided on symbolic strings: for every Unicode string up to the bound the real '
+               'parser (real pyparsing on symbolic characters) accepts exactly when an independent recursive-descent recogniser of the documented grammar does.')
 ASSUMPTIONS = ['operands are any reals in [-3,3] (zero included) except bases of powers, which range over [1/2,3] so that real powers are defined; '
                'exponents and all intermediate values are unrestricted', 'x^y with a non-literal exponent is abstracted as an uninterpreted function pow(x,y) on both sides']
-BOUNDS = {'quick': 'all operator sequences of length <= 4 (1554 skeletons) x unary-minus placements (none, each single position, all) x 6 renderings',
-          'thorough': 'all operator sequences of length <= 4 (1554 skeletons) x ALL unary-minus placements x 6 renderings'}
+BOUNDS = {'quick': 'all operator sequences of length <= 4 (1554 skeletons) x unary-minus placements (none, each single position, all) x 6 renderings; accepted language: all Unicode strings of length <= 3',
+          'thorough': 'all operator sequences of length <= 4 (1554 skeletons) x ALL unary-minus placements x 6 renderings; accepted language: length <= 4'}
 OUTSIDE = ['numeric values of transcendental ufuncs (numpy C code)', 'IEEE rounding', 'complex variable bindings', 'nesting deeper than the generated skeletons',
-           'the accepted LANGUAGE of strings (decided on symbolic strings in obligation O3 once the pyparsing shims are in place)']
+           'the accepted language beyond the string-length bound']
 DEADLINE = {'quick': 170, 'thorough': 2400}
 FUNCS = ['expressions.MathParser.parse/raw_parse/get_grammar (real pyparsing)', 'MathExpression.eval/eval_node', 'MathExpression.eval_power', 'eval_negation',
          'eval_parallel', 'eval_product', 'eval_sum', 'eval_number', 'eval_variable', 'robust_pow.robust_pow', 'expressions.evaluator']
-STUBS = []
+STUBS = ['pyparsing leaf shims (language harness only)']
 OPS = ['+', '-', '*', '/', '^', '||']
 NAMES = 'abcde'
 
@@ -244,6 +245,245 @@ def h_invalid(E, idx):
         return type(e).__name__
 
 
+# ------------------------------------------------------------------------------------------------ O3: the accepted language
+import string as _string
+_ALPHA = _string.ascii_letters
+_ALNUM = _string.ascii_letters + _string.digits
+_DIG = _string.digits
+_WS = ' \t\n\r'
+_MINUS = '-—'
+
+
+class Recogniser:
+    """independent recursive-descent recogniser of the documented expression grammar over a list of SymChar (ordered choice, greedy
+    repetition - the reading of the documented BNF); every rule returns the end position or None"""
+
+    def __init__(self, chars):
+        self.c = chars
+        self.n = len(chars)
+
+    def at(self, i, chars):
+        return i < self.n and bool(self.c[i].in_set(chars))
+
+    def ws(self, i):
+        while self.at(i, _WS):
+            i += 1
+        return i
+
+    def run(self, i, chars):
+        while self.at(i, chars):
+            i += 1
+        return i
+
+    def accepts(self):
+        e = self.expr(0)
+        return e is not None and self.ws(e) == self.n
+
+    def expr(self, i):
+        j = self.ws(i)
+        if self.at(j, '+'):
+            j += 1
+        e = self.product(j)
+        if e is None:
+            return None
+        while True:
+            k = self.ws(e)
+            if not self.at(k, '+' + _MINUS):
+                return e
+            e2 = self.product(k + 1)
+            if e2 is None:
+                return e
+            e = e2
+
+    def product(self, i):
+        e = self.parallel(i)
+        if e is None:
+            return None
+        while True:
+            k = self.ws(e)
+            if not self.at(k, '*/'):
+                return e
+            e2 = self.parallel(k + 1)
+            if e2 is None:
+                return e
+            e = e2
+
+    def parallel(self, i):
+        e = self.negation(i)
+        if e is None:
+            return None
+        while True:
+            k = self.ws(e)
+            if not self.at(k, '|'):
+                return e
+            k2 = self.ws(k + 1)
+            if not self.at(k2, '|'):
+                return e
+            e2 = self.negation(k2 + 1)
+            if e2 is None:
+                return e
+            e = e2
+
+    def negation(self, i):
+        j = self.ws(i)
+        if self.at(j, _MINUS):
+            j += 1
+        return self.power(j)
+
+    def power(self, i):
+        e = self.atom(i)
+        if e is None:
+            return None
+        while True:
+            k = self.ws(e)
+            if not self.at(k, '^'):
+                return e
+            k = self.ws(k + 1)
+            if self.at(k, _MINUS):
+                k += 1
+            e2 = self.atom(k)
+            if e2 is None:
+                return e
+            e = e2
+
+    def atom(self, i):
+        j = self.ws(i)
+        for rule in (self.number, self.function, self.name, self.parens, self.array):
+            e = rule(j)
+            if e is not None:
+                return e
+        return None
+
+    def number(self, i):
+        j = self.run(i, _DIG)
+        if j > i:
+            if self.at(j, '.'):
+                j = self.run(j + 1, _DIG)
+        elif self.at(i, '.'):
+            j = self.run(i + 1, _DIG)
+            if j == i + 1:
+                return None
+        else:
+            return None
+        if self.at(j, 'eE'):
+            k = j + 1
+            if self.at(k, '+' + _MINUS):
+                k += 1
+            k2 = self.run(k, _DIG)
+            if k2 > k:
+                j = k2
+        k = self.ws(j)
+        k2 = self.run(k, _ALPHA + '%')
+        return k2 if k2 > k else j
+
+    def name(self, i):
+        if not self.at(i, _ALPHA):
+            return None
+        j = self.run(i + 1, _ALNUM)
+        k = self.run(j, _ALNUM + '_')
+        if k > j and not self.at(k, '{'):
+            j = k
+        else:
+            for opener in ('_', '^'):
+                if self.at(j, opener) and self.at(j + 1, '{'):
+                    k = j + 2
+                    if self.at(k, '-'):
+                        k += 1
+                    k2 = self.run(k, _ALNUM)
+                    if k2 > k and self.at(k2, '}'):
+                        j = k2 + 1
+        return self.run(j, "'")
+
+    def arglist(self, i, closer):
+        e = self.expr(i)
+        if e is None:
+            return None
+        while True:
+            k = self.ws(e)
+            if not self.at(k, ','):
+                break
+            e2 = self.expr(k + 1)
+            if e2 is None:
+                break
+            e = e2
+        k = self.ws(e)
+        return k + 1 if self.at(k, closer) else None
+
+    def function(self, i):
+        j = self.name(i)
+        if j is None:
+            return None
+        k = self.ws(j)
+        if not self.at(k, '('):
+            return None
+        return self.arglist(k + 1, ')')
+
+    def parens(self, i):
+        if not self.at(i, '('):
+            return None
+        e = self.expr(i + 1)
+        if e is None:
+            return None
+        k = self.ws(e)
+        return k + 1 if self.at(k, ')') else None
+
+    def array(self, i):
+        if not self.at(i, '['):
+            return None
+        return self.arglist(i + 1, ']')
+
+
+def _balanced(chars):
+    stack = []
+    for c in chars:
+        for o, cl in zip('([{', ')]}'):
+            if bool(c == o):
+                stack.append(cl)
+                break
+            if bool(c == cl):
+                if not stack or stack.pop() != cl:
+                    return False
+                break
+    return not stack
+
+
+_PP = {}
+
+
+def h_language(E, N):
+    import mitxgraders.helpers.calc.expressions as X
+    from mitxgraders.helpers.calc.exceptions import UnableToParse, UnbalancedBrackets
+    from symx.text import SymStr, K, fresh_str, any_unicode
+    from symx import ppshim
+    if 'p' not in _PP:
+        _PP['p'] = X.MathParser()
+    P = _PP['p']
+    P.cache = {}
+    s = fresh_str(E, 's', N, any_unicode, minlen=1)
+    with ppshim.installed(P.grammar):
+        try:
+            P.parse(s)
+            got = 'accepted'
+        except UnbalancedBrackets:
+            got = 'unbalanced'
+        except UnableToParse:
+            got = 'rejected'
+    chars = s.ch if isinstance(s, SymStr) else [K(c) for c in s]
+    stripped = [c for c in chars if not bool(c == ' ')]          # spaces are removed anywhere before parsing
+    if not _balanced(stripped):
+        want = 'unbalanced'
+    else:
+        want = 'accepted' if Recogniser(stripped).accepts() else 'rejected'
+    E.check('accepted-language-is-the-documented-grammar', got == want)
+    return got
+
+
+def selftest():
+    from symx import text, ppshim
+    text.selftest(rounds=25)
+    ppshim.selftest()
+
+
 def harnesses(tier):
     hs = []
     T = tier == 'thorough'
@@ -272,4 +512,5 @@ def harnesses(tier):
         add(h_frontdoor, 'frontdoor', dict(which=w), '')
     for i in range(len(INVALID)):
         add(h_invalid, 'invalid', dict(i=i), repr(INVALID[i]))
+    add(h_language, 'language', dict(N=4 if T else 3), 'all Unicode strings up to that length: accepted iff in the documented grammar', max_paths=300000 if T else None)
     return hs
